@@ -491,7 +491,7 @@ def ExcObj.str (o : ExcObj) (base : Except Err Str) : Except Err Str :=
 
 inductive Seen where
   | raised (o : ExcObj)
-  | error (e : Err)          -- raised out of the receiver's `serve()` / by the `raise` statement itself
+  | error (e : Err)          -- `load` raised (`_deliver_response` hands that error to the request) / the `raise` statement refused
   deriving Repr
 
 def builtinStopIteration : ClsRef := .real (.str Gen.Vinegar.exceptionsModule) stopIterationName
